@@ -1,0 +1,22 @@
+//go:build verif
+
+// Contracts for the deductive verifier in /verif (gocv). Comment-only file.
+
+package kv
+
+// ---- abstract content of a key-value source (buffer or snapshot) -------------------------------------------------------
+// gHas(g, k): source g holds an entry for key k (for a write buffer an entry with an empty value is a deletion);
+// gVal(g, k): the value of that entry. Both are uninterpreted: the contracts below are what the readers assume about
+// every Getter / BatchGetter they are given (trusted), and what the union readers are proved to compute from them.
+//@ spec func gHas(g any, k []byte) bool
+//@ spec func gVal(g any, k []byte) []byte
+//@ spec func inKeys(keys [][]byte, k []byte) bool { return exists i int :: 0 <= i && i < len(keys) && keys[i] == k }
+
+// BatchGet of any source: a fresh map holding exactly the requested keys the source has, with their values.
+//@ func (BatchGetter) BatchGet
+//@   trusted
+//@   bytes: key
+//@   modifies nothing
+//@   ensures result1 == nil ==> result0 != nil && fresh(result0)
+//@   ensures result1 == nil ==> forall k []byte :: inDom(result0, string(k)) <==> (inKeys(keys, k) && gHas(recv, k))
+//@   ensures result1 == nil ==> forall k []byte :: inDom(result0, string(k)) ==> result0[string(k)].Value == gVal(recv, k)
